@@ -191,10 +191,30 @@ func conv(v any) any {
 		}
 	}
 	rv := reflect.ValueOf(v)
+	if rv.Kind() == reflect.Struct && rv.Type().Name() == "PtrID" && rv.NumField() == 1 {
+		// identify by pointer identity, whatever it points to
+		p := rv.Field(0).Interface()
+		if p == nil {
+			return 0
+		}
+		return idLocked(p)
+	}
 	switch rv.Kind() {
+	case reflect.Uintptr:
+		if rv.Uint() == 0 {
+			return 0
+		}
+		return idLocked(uintptr(rv.Uint()))
 	case reflect.Ptr, reflect.Chan, reflect.Map, reflect.UnsafePointer, reflect.Func:
 		if rv.IsNil() {
 			return 0
+		}
+		if rv.Kind() == reflect.Ptr && rv.Elem().Kind() == reflect.Func {
+			// handlers are pointers to funcs: the function is the identity
+			if rv.Elem().IsNil() {
+				return 0
+			}
+			return idLocked(rv.Elem().Pointer())
 		}
 		if rv.Kind() == reflect.Ptr {
 			return idLocked(v)
